@@ -8,6 +8,8 @@ use crate::types::{tracked, weird};
 
 fn cfg(d: &mut Dna) -> GenCfg {
     let mut c = GenCfg::behaviour(&[Tr::Clone], &[Tr::Copy, Tr::Debug, Tr::PartialEq]);
+    // the bound modes decide where an impl applies, never what it does
+    c.bounds = true;
     c.kinds = vec![Kind::Struct, Kind::Enum, Kind::Union];
     c.trait_pct = 25;
     c.attr_pct = 45;
@@ -22,6 +24,14 @@ fn cfg(d: &mut Dna) -> GenCfg {
 fn adjust(s: &mut TypeSpec, d: &mut Dna) -> bool {
     if s.kind == Kind::Union {
         return true;
+    }
+    // `bound(*)` on a generic Copy + Clone enum: a bound mode decides where the impl applies, never what clone() does
+    if s.kind == Kind::Enum && s.has(Tr::Copy) && !s.gens.types.is_empty() && d.chance(35) {
+        let sp = d.byte();
+        if let Some(a) = s.traits.iter_mut().find(|a| a.tr == Tr::Clone) {
+            a.params.retain(|(p, _)| !matches!(p, TParam::Bound(_)));
+            a.params.push((TParam::Bound(BoundV::All), sp));
+        }
     }
     let copy = s.has(Tr::Copy);
     let only_clone_like = s.traits.iter().all(|a| matches!(a.tr, Tr::Clone | Tr::Copy));
@@ -203,10 +213,11 @@ pub fn behaviour() -> Behaviour {
         cfg,
         adjust,
         render,
-        quick: 4000,
+        quick: 7000,
         thorough: 20000,
         batch: 25,
         assumptions: &["generation counters are excluded from 'indistinguishable' because clone_from may legitimately reuse storage"],
         miri_units: 0,
+        extra: None,
     }
 }
